@@ -398,6 +398,9 @@ func (e *Engine) libIntrinsic(fn *ssa.Function, key string, args []Value, g *Ter
 			return e.nondetFull(fmt.Sprintf("$since%d", e.selectN), 64, true), g, true
 		case "time.Sleep":
 			return nil, g, true
+		case "(time.Duration).Hours", "(time.Duration).Minutes", "(time.Duration).Seconds":
+			// float accessor: kept symbolic; int64(d.Hours()) is summarised at the conversion (see convert)
+			return UF("durfloat."+fn.Name(), 64, args[0].(*Term)), g, true
 		}
 	case "errors":
 		switch key {
